@@ -1,4 +1,6 @@
 """C03 - unordered super-reconciliation (SuperDTL) returns a minimum-cost solution."""
+from hypothesis import strategies as st
+
 from .. import gen, pkg
 from ..plain import INF, Instance, gain_nodes, labeling_losses
 from ..runner import Result, Violation
@@ -41,7 +43,19 @@ EXHAUSTIVE_RULE = {
 EXHAUSTIVE_COMPLETE = False  # the random layer is not exhaustive
 
 
+@st.composite
+def _with_large(draw, small):
+    if gen.chance(draw, 1, 12):
+        # beyond plain enumeration: 7..10 object leaves, 3..8 species leaves, policy ANY, decided by the recursion oracle
+        case = draw(gen.rec_case(max_obj=10, max_sp=8, min_obj=7, min_sp=3, costs="coherent", labelled=True, max_fam=5, allow_inconsistent=False))
+        case["_large"] = True
+        return case
+    return draw(small)
+
+
 def strategy(tier):
+    if tier == "quick":
+        return _with_large(gen.rec_case(max_obj=6, max_sp=4, min_obj=1, costs="coherent", labelled=True, max_fam=5, allow_inconsistent=False))
     if tier == "thorough":
         return gen.rec_case(max_obj=8, max_sp=6, min_obj=1, costs="coherent", labelled=True, max_fam=5,
                             allow_inconsistent=False)
@@ -85,12 +99,15 @@ def _helper_sets(inp):
 def check(case):
     inst = Instance(case)
     labels = common_labels(inst)
-    opt_ext, set_ext = reference(inst, "unordered", labels=labels)
+    large = bool(case.get("_large"))
+    if large:
+        labels.append("large")
+    opt_ext, set_ext = reference(inst, "unordered", labels=labels, want_set=not large)
     opt_base, _ = reference(inst, "unordered", restrict_lca=True, want_set=False)
     inp = pkg.make_input(case, labelled=True)
     before = pkg.guarded(_helper_sets, inp)
     for algo, opt in (("superdtl", opt_ext), ("base_uspfs", opt_base)):
-        for policy in ("ALL", "ANY"):
+        for policy in ("ANY",) if large else ("ALL", "ANY"):
             outs = pkg.run_algo(algo, inp, policy)
             if opt is None:
                 raise Violation("oracle.no-solution", observed=None, expected="an unordered solution always exists")
